@@ -465,7 +465,9 @@ func (s *Service) Truncate(ctx context.Context, tp TruncateParams, otf OnTruncat
 			}
 			ti := &TruncateInfo{lts, tags, jn, size, size - tr, recs, arecs, n, deleted}
 			idx := sort.Search(len(sortedInfos), func(idx int) bool {
-				return sortedInfos[idx].LatestTs <= ti.LatestTs
+				si := sortedInfos[idx]
+				// equal latest timestamps are ordered by source id, not by the (random) visiting order
+				return si.LatestTs < ti.LatestTs || (si.LatestTs == ti.LatestTs && si.Src >= ti.Src)
 			})
 			sortedInfos = append(sortedInfos, ti)
 			if idx < len(sortedInfos)-1 {
